@@ -57,6 +57,7 @@ type hxSrv struct {
 	noDrop     bool     // never drop the connection
 	onlyOK     bool     // honest server: every reply is the expected one
 	stallAt    int      // command index at which the server goes silent (-1: never)
+	hsStall    bool     // the TLS handshake never completes (silent peer)
 	textOf     func(c *hxCmd, okReply bool) string
 	authFn     func(s *hxSrv, line string) // AUTH / continuation handler (nil: 502)
 	inAuth     bool
